@@ -37,11 +37,11 @@ ParseBad(i) == LET e == Obs.parse[i] IN
                Determined(e.s) /\ (ObsParse(e) # Parse(e.s) \/ (~e.ok /\ e.err # "ValueError"))
 ParseCls(i) == LET e == Obs.parse[i] IN
                IF ~Balanced(e.s) THEN "unbalanced" ELSE IF e.ok THEN "keys" ELSE "rejected"
-ParseDontCareDiff == Cardinality({i \in 1..Len(Obs.parse) : ~Determined(Obs.parse[i].s) /\ ObsParse(Obs.parse[i]) # Parse(Obs.parse[i].s)})
-ParseLaws ==
-  /\ PrintT(<<"COVER", "parse", {Obs.parse[i].s : i \in 1..Len(Obs.parse)} = SeqsUpTo(Alphabet, MaxStr),
+ParseDontCareDiff(u) == Cardinality({i \in 1..Len(Obs.parse) : ~Determined(Obs.parse[i].s) /\ ObsParse(Obs.parse[i]) # Parse(Obs.parse[i].s)})
+ParseLaws(u) ==
+  /\ PrintT(<<"COVER", "parse", {Obs.parse[i].s : i \in 1..Len(Obs.parse)} = StrU(0),
               "determined", Cardinality({i \in 1..Len(Obs.parse) : Determined(Obs.parse[i].s)}),
-              "dontcare_diff", ParseDontCareDiff>>)
+              "dontcare_diff", ParseDontCareDiff(0)>>)
   /\ Report("parse_table", 1..Len(Obs.parse), ParseBad, ParseCls)
 
 \* ----------------------------------------------------- format/parse round trip ---
@@ -51,16 +51,16 @@ RtCls(i) == LET e == Obs.rt[i] IN
             ELSE IF \E j \in 1..Len(e.p) : e.p[j].int THEN "int"
             ELSE IF \E j \in 1..Len(e.p) : HasSpecial(e.p[j].s) THEN "special_str"
             ELSE "plain_str"
-FmtDiff == Cardinality({i \in 1..Len(Obs.rt) : Obs.rt[i].f # Format(Obs.rt[i].p)})
-RoundTripLaws ==
-  /\ PrintT(<<"COVER", "rt", {Obs.rt[i].p : i \in 1..Len(Obs.rt)} = PathU, "format_differs_from_reference", FmtDiff>>)
+FmtDiff(u) == Cardinality({i \in 1..Len(Obs.rt) : Obs.rt[i].f # Format(Obs.rt[i].p)})
+RoundTripLaws(u) ==
+  /\ PrintT(<<"COVER", "rt", {Obs.rt[i].p : i \in 1..Len(Obs.rt)} = PathU(0), "format_differs_from_reference", FmtDiff(0)>>)
   /\ Report("parse_format", 1..Len(Obs.rt), RtBad, RtCls)
 
 \* ------------------------------------------------------------------ algebra ---
-N == Len(Obs.au)
+N(u) == Len(Obs.au)
 P(i) == Obs.au[i]
-A == Obs.alg
-Pairs == (1..N) \X (1..N)
+A(u) == Obs.alg
+Pairs(u) == (1..N(0)) \X (1..N(0))
 Res(ok, keys) == [ok |-> ok, keys |-> keys]
 Min2(a, b) == IF a < b THEN a ELSE b
 \* two paths that differ, at the first position where they differ, by an int key against a str key that
@@ -72,54 +72,54 @@ IntText(p, q) == LET i == FirstDiff(p, q) IN i # 0 /\ p[i].int # q[i].int /\ Int
 OrdCls2(c) == IF IntText(P(c[1]), P(c[2])) THEN "int_vs_inttext_str" ELSE "plain"
 OrdCls3(c) == IF IntText(P(c[1]), P(c[2])) \/ IntText(P(c[2]), P(c[3])) \/ IntText(P(c[1]), P(c[3]))
               THEN "int_vs_inttext_str" ELSE "plain"
-AddBad(c) == LET o == A.add[c[1]][c[2]] IN Res(o.ok, o.keys) # Res(TRUE, Concat(P(c[1]), P(c[2])))
-AddStrBad(c) == LET o == A.addstr[c[1]][c[2]] IN Res(o.ok, o.keys) # Res(TRUE, Concat(P(c[1]), P(c[2])))
-SubBad(c) == LET o == A.sub[c[1]][c[2]] IN Res(o.ok, o.keys) # Sub(P(c[1]), P(c[2]))
-SubAddBad(c) == LET o == A.subadd[c[1]][c[2]] IN Res(o.ok, o.keys) # Res(TRUE, P(c[2]))
-RelBad(c) == A.rel[c[1]][c[2]] # IsPrefix(P(c[2]), P(c[1]))
-RelAddBad(c) == ~A.reladd[c[1]][c[2]]
-ParAddBad(c) == P(c[2]) # <<>> /\ LET o == A.paradd[c[1]][c[2]] IN
+AddBad(c) == LET o == A(0).add[c[1]][c[2]] IN Res(o.ok, o.keys) # Res(TRUE, Concat(P(c[1]), P(c[2])))
+AddStrBad(c) == LET o == A(0).addstr[c[1]][c[2]] IN Res(o.ok, o.keys) # Res(TRUE, Concat(P(c[1]), P(c[2])))
+SubBad(c) == LET o == A(0).sub[c[1]][c[2]] IN Res(o.ok, o.keys) # Sub(P(c[1]), P(c[2]))
+SubAddBad(c) == LET o == A(0).subadd[c[1]][c[2]] IN Res(o.ok, o.keys) # Res(TRUE, P(c[2]))
+RelBad(c) == A(0).rel[c[1]][c[2]] # PrefixOf(P(c[2]), P(c[1]))
+RelAddBad(c) == ~A(0).reladd[c[1]][c[2]]
+ParAddBad(c) == P(c[2]) # <<>> /\ LET o == A(0).paradd[c[1]][c[2]] IN
                                   Res(o.ok, o.keys) # Res(TRUE, Concat(P(c[1]), ParentOf(P(c[2])).keys))
-ParentBad(i) == LET o == A.parent[i] IN Res(o.ok, o.keys) # ParentOf(P(i))
-DepthBad(i) == A.depth[i] # Len(P(i))
-EqBad(c) == A.eq[c[1]][c[2]] # (P(c[1]) = P(c[2])) \/ A.ne[c[1]][c[2]] = A.eq[c[1]][c[2]]
-HashBad(c) == A.eq[c[1]][c[2]] /\ ~A.hasheq[c[1]][c[2]]
-OLt(i, j) == A.lt[i][j]
+ParentBad(i) == LET o == A(0).parent[i] IN Res(o.ok, o.keys) # ParentOf(P(i))
+DepthBad(i) == A(0).depth[i] # Len(P(i))
+EqBad(c) == A(0).eq[c[1]][c[2]] # (P(c[1]) = P(c[2])) \/ A(0).ne[c[1]][c[2]] = A(0).eq[c[1]][c[2]]
+HashBad(c) == A(0).eq[c[1]][c[2]] /\ ~A(0).hasheq[c[1]][c[2]]
+OLt(i, j) == A(0).lt[i][j]
 IrreflBad(i) == OLt(i, i)
-ConverseBad(c) == A.gt[c[1]][c[2]] # OLt(c[2], c[1]) \/ A.ge[c[1]][c[2]] # A.le[c[2]][c[1]]
-LeBad(c) == A.le[c[1]][c[2]] # (OLt(c[1], c[2]) \/ P(c[1]) = P(c[2]))
+ConverseBad(c) == A(0).gt[c[1]][c[2]] # OLt(c[2], c[1]) \/ A(0).ge[c[1]][c[2]] # A(0).le[c[2]][c[1]]
+LeBad(c) == A(0).le[c[1]][c[2]] # (OLt(c[1], c[2]) \/ P(c[1]) = P(c[2]))
 TrichoBad(c) == c[1] # c[2] /\ ~OLt(c[1], c[2]) /\ ~OLt(c[2], c[1])
 AsymBad(c) == OLt(c[1], c[2]) /\ OLt(c[2], c[1])
-PrefixBad(c) == c[1] # c[2] /\ IsPrefix(P(c[1]), P(c[2])) /\ ~OLt(c[1], c[2])
+PrefixBad(c) == c[1] # c[2] /\ PrefixOf(P(c[1]), P(c[2])) /\ ~OLt(c[1], c[2])
 \* cells the documentation fixes: at the first difference two ints compare numerically, two strs as text
 RefCellBad(c) == LET i == FirstDiff(P(c[1]), P(c[2])) IN
                  i # 0 /\ P(c[1])[i].int = P(c[2])[i].int /\ OLt(c[1], c[2]) # PathLt(P(c[1]), P(c[2]), "intended")
 TransBad(c) == OLt(c[1], c[2]) /\ OLt(c[2], c[3]) /\ ~OLt(c[1], c[3])
-Triples == (1..N) \X (1..N) \X (1..N)
-AlgebraLaws ==
-  /\ PrintT(<<"COVER", "algebra", {P(i) : i \in 1..N} = AU, N>>)
-  /\ Report("add", Pairs, AddBad, Plain)
-  /\ Report("add_str", Pairs, AddStrBad, Plain)
-  /\ Report("sub", Pairs, SubBad, Plain)
-  /\ Report("sub_of_add", Pairs, SubAddBad, Plain)
-  /\ Report("is_relative_to", Pairs, RelBad, Plain)
-  /\ Report("add_is_relative", Pairs, RelAddBad, Plain)
-  /\ Report("parent_of_add", Pairs, ParAddBad, Plain)
-  /\ Report("parent", 1..N, ParentBad, Plain)
-  /\ Report("depth", 1..N, DepthBad, Plain)
-  /\ Report("eq_ne", Pairs, EqBad, Plain)
-  /\ Report("hash", Pairs, HashBad, Plain)
-  /\ Report("lt_irreflexive", 1..N, IrreflBad, Plain)
-  /\ Report("lt_gt_converse", Pairs, ConverseBad, OrdCls2)
-  /\ Report("le_is_lt_or_eq", Pairs, LeBad, OrdCls2)
-  /\ Report("lt_total", Pairs, TrichoBad, OrdCls2)
-  /\ Report("lt_asymmetric", Pairs, AsymBad, OrdCls2)
-  /\ Report("lt_prefix_first", Pairs, PrefixBad, OrdCls2)
-  /\ Report("lt_same_type_keys", Pairs, RefCellBad, OrdCls2)
-  /\ Report("lt_transitive", Triples, TransBad, OrdCls3)
+Triples(u) == (1..N(0)) \X (1..N(0)) \X (1..N(0))
+AlgebraLaws(u) ==
+  /\ PrintT(<<"COVER", "algebra", {P(i) : i \in 1..N(0)} = AU(0), N(0)>>)
+  /\ Report("add", Pairs(0), AddBad, Plain)
+  /\ Report("add_str", Pairs(0), AddStrBad, Plain)
+  /\ Report("sub", Pairs(0), SubBad, Plain)
+  /\ Report("sub_of_add", Pairs(0), SubAddBad, Plain)
+  /\ Report("is_relative_to", Pairs(0), RelBad, Plain)
+  /\ Report("add_is_relative", Pairs(0), RelAddBad, Plain)
+  /\ Report("parent_of_add", Pairs(0), ParAddBad, Plain)
+  /\ Report("parent", 1..N(0), ParentBad, Plain)
+  /\ Report("depth", 1..N(0), DepthBad, Plain)
+  /\ Report("eq_ne", Pairs(0), EqBad, Plain)
+  /\ Report("hash", Pairs(0), HashBad, Plain)
+  /\ Report("lt_irreflexive", 1..N(0), IrreflBad, Plain)
+  /\ Report("lt_gt_converse", Pairs(0), ConverseBad, OrdCls2)
+  /\ Report("le_is_lt_or_eq", Pairs(0), LeBad, OrdCls2)
+  /\ Report("lt_total", Pairs(0), TrichoBad, OrdCls2)
+  /\ Report("lt_asymmetric", Pairs(0), AsymBad, OrdCls2)
+  /\ Report("lt_prefix_first", Pairs(0), PrefixBad, OrdCls2)
+  /\ Report("lt_same_type_keys", Pairs(0), RefCellBad, OrdCls2)
+  /\ Report("lt_transitive", Triples(0), TransBad, OrdCls3)
 
 \* ------------------------------------------------- traversal, flatten, lookup ---
-NV == Len(Obs.vals)
+NV(u) == Len(Obs.vals)
 E(i) == Obs.vals[i]
 \* a lookup through a *plain* dict with an int key (class of the known defect of KeyPath._query)
 RECURSIVE IntKeyAtDict(_, _)
@@ -128,7 +128,7 @@ IntKeyAtDict(v, path) ==
   ELSE IF v.t = "dict" /\ path[1].int THEN TRUE
   ELSE LET r == LookupV(v, <<path[1]>>) IN r.ok /\ IntKeyAtDict(r.node, Tail(path))
 LogNames == {"utils_traverse_pre", "utils_traverse_post", "pg_traverse_pre", "pg_traverse_post", "pg_query"}
-LogCases == {c \in (1..NV) \X LogNames : c[2] \in DOMAIN E(c[1]).logs}
+LogCases(u) == {c \in (1..NV(0)) \X LogNames : c[2] \in DOMAIN E(c[1]).logs}
 StripLog(log) == [j \in 1..Len(log) |-> [p |-> log[j].p, node |-> log[j].node]]
 LogBad(c) == LET log == E(c[1]).logs[c[2]] IN
              ~(VisitLogOK(E(c[1]).v, StripLog(log)) /\ \A j \in 1..Len(log) : log[j].is /\ log[j].rt)
@@ -142,23 +142,23 @@ FlatBad(i) == LET f == E(i).flat  ref == FlatRef(i) IN
                 /\ \A j \in 1..Len(ref) : \E k \in 1..Len(f.entries) :
                      Parse(f.entries[k].k) = [ok |-> TRUE, keys |-> ref[j].p] /\ f.entries[k].node = ref[j].node)
 CanonBad(i) == E(i).dom /\ ~(E(i).canon.ok /\ SameValue(E(i).v, E(i).canon.v))
-CanonOutside == Cardinality({i \in 1..NV : ~E(i).dom /\ ~(E(i).canon.ok /\ SameValue(E(i).v, E(i).canon.v))})
-ProbeCases == {c \in (1..NV) \X {"plain", "sym"} \X (1..40) : c[3] <= Len(E(c[1]).probes)}
+CanonOutside(u) == Cardinality({i \in 1..NV(0) : ~E(i).dom /\ ~(E(i).canon.ok /\ SameValue(E(i).v, E(i).canon.v))})
+ProbeCases(u) == {c \in (1..NV(0)) \X {"plain", "sym"} \X (1..40) : c[3] <= Len(E(c[1]).probes)}
 ProbeBad(c) == LET pr == E(c[1]).probes[c[3]] IN pr[c[2]] # (IF LookupV(E(c[1]).v, pr.p).ok THEN "T" ELSE "F")
 ProbeCls(c) == IF c[2] = "plain" /\ IntKeyAtDict(E(c[1]).v, E(c[1]).probes[c[3]].p)
                THEN "plain_dict_int_key_lookup" ELSE c[2]
-ValueLaws ==
-  /\ PrintT(<<"COVER", "values", {E(i).v : i \in 1..NV} = ValU, NV, "domain_ok", \A i \in 1..NV : E(i).dom = InFlattenDomain(E(i).v),
-              "canon_outside_domain_differs", CanonOutside>>)
-  /\ Report("visit_log", LogCases, LogBad, LogCls)
-  /\ Report("flatten_paths", 1..NV, FlatBad, Plain)
-  /\ Report("canonicalize_flatten", 1..NV, CanonBad, Plain)
-  /\ Report("exists", ProbeCases, ProbeBad, ProbeCls)
+ValueLaws(u) ==
+  /\ PrintT(<<"COVER", "values", {E(i).v : i \in 1..NV(0)} = ValU(0), NV(0), "domain_ok", \A i \in 1..NV(0) : E(i).dom = InFlattenDomain(E(i).v),
+              "canon_outside_domain_differs", CanonOutside(0)>>)
+  /\ Report("visit_log", LogCases(0), LogBad, LogCls)
+  /\ Report("flatten_paths", 1..NV(0), FlatBad, Plain)
+  /\ Report("canonicalize_flatten", 1..NV(0), CanonBad, Plain)
+  /\ Report("exists", ProbeCases(0), ProbeBad, ProbeCls)
 
-ASSUME CASE Part = "parse" -> ParseLaws
-         [] Part = "rt" -> RoundTripLaws
-         [] Part = "algebra" -> AlgebraLaws
-         [] Part = "values" -> ValueLaws
+ASSUME CASE Part = "parse" -> ParseLaws(0)
+         [] Part = "rt" -> RoundTripLaws(0)
+         [] Part = "algebra" -> AlgebraLaws(0)
+         [] Part = "values" -> ValueLaws(0)
 
 VARIABLE x
 Init == x = 0
